@@ -59,7 +59,7 @@ class Ob(object):
                  flags=None, timeout=None, solver='cadical', mem=False, kf=None,
                  replay='gcc', bounds=None, expect_fail=None, group=None,
                  remove_bodies=None, nondet_static=False, cover=None,
-                 objbits=None, units=None):
+                 objbits=None, units=None, kfwhole=None):
         self.name = name
         self.harness = harness
         self.func = func
@@ -77,6 +77,7 @@ class Ob(object):
         self.remove_bodies = list(remove_bodies or [])
         self.nondet_static = nondet_static
         self.objbits = objbits
+        self.kfwhole = kfwhole    # key: the whole obligation is a listed finding
         self.units = list(units or [])   # extra real translation units, e.g. 'lib/date-core.c'
         # filled in by the runner
         self.kfmode = None      # None | ('EXCL', key...) | ('ONLY', key)
@@ -617,10 +618,17 @@ def conclude(ctx, obs, level_note, assumptions, stubs, rule, pre_info, extra_cov
     for ob in obs:
         r = ob.result
         only = ob.kfmode and ob.kfmode[0] == 'ONLY'
+        whole = ob.kfwhole if ob.kfwhole in ctx.known else None
         if r.status == 'violated':
             rp = r.replay
             replayed += 1
-            if only:
+            if whole:
+                if rp == 'confirmed':
+                    known_lines.append('KNOWN-FINDING: property=%s %s [key=%s]' % (
+                        ctx.prop, ctx.known[whole], whole))
+                else:
+                    problems.append('%s: listed finding %s does not reproduce in replay (%s)' % (ob.name, whole, rp))
+            elif only:
                 if rp == 'confirmed' or ob.replay == 'none':
                     known_lines.append('KNOWN-FINDING: property=%s %s [key=%s]' % (
                         ctx.prop, ctx.known[ob.kfmode[1]], ob.kfmode[1]))
@@ -641,6 +649,11 @@ def conclude(ctx, obs, level_note, assumptions, stubs, rule, pre_info, extra_cov
             problems.append('%s: %s %s' % (ob.name, r.status, (r.detail or '')[:600]))
     for ln in sorted(set(known_lines)):
         print(ln)
+    if os.environ.get('VERIF_SUGGEST_KF'):
+        for ob in violations:
+            print('SUGGEST known: property=%s key=%s %s fails, e.g. %s' % (
+                ctx.prop, ob.kfwhole or '?', ob.group,
+                ' '.join('%s=%s' % kv for kv in sorted(ob.result.inputs.items())[:8])))
     for ob in violations:
         print('VIOLATION property=%s replay=%s' % (ctx.prop, ob.result.replay_path))
         ctx.log('  obligation %s failed: %s inputs=%s' % (
@@ -824,3 +837,9 @@ def ref_selftest(ctx):
     ctx.log('reference model == Python datetime on all %d days (%.1fs)' % (n, time.time() - t))
     return {'reference_selftest': 'h/ref.h compared with Python datetime on all 911280 days: '
             'ymd, weekday, day of year, ISO year/week, %U, %W, hang, weeks-in-year, LDN/MDN/Unix bases'}
+
+
+def specname(sp):
+    """a key-safe name for a format specifier"""
+    m = {'%': '', '_': 'u', '-': 'minus', ' ': 'spc', '0': 'zero'}
+    return ''.join(m.get(c, c) for c in sp)
